@@ -150,4 +150,13 @@ CHECKS["C13"] = {
     "note": "uuid4 values are assumed distinct; Deep.register_tracepoint / TracepointRegistration are pass-through "
             "wrappers (inlined); interleaved service updates are C12's schedule clause.",
 }
+CHECKS["C16"] = {
+    "text": "process_log is proved to return '[deep] ' + the formatter's rendering of the configured template, to "
+            "evaluate every {field} exactly once as a LOG watch in the paused frame, to use eval_watch's string form "
+            "(error text on failure) for it and to collect its watch result; the log action attaches exactly one result "
+            "with that text; LogActionResult.process passes (message, tracepoint id, context id) in their own places.",
+    "note": "string.Formatter.vformat is a trusted model (literal text kept, braces unescaped, one get_field per field; "
+            "checked for an arbitrary field by for-each lifting); the snapshot+log combination is covered up to "
+            "collect() only (see C02).",
+}
 NOT_APPLICABLE = {}
